@@ -65,6 +65,10 @@ class Pipe:
         transferred = 0
         identifier = object()
         throughput = throughput if throughput is not None else self.throughput
+        if total == 0:
+            # nothing to transfer, but still allow other activities to run
+            await postpone()
+            return
         self._add_subscriber(identifier, throughput)
         try:
             while transferred < total:
